@@ -134,6 +134,47 @@ func runC06(c *mon.Ctx) {
 		second[s] = gen.NewIdentity(kr, s, "ed25519:aux")
 	}
 	unknown := gen.NewIdentity(kr, "unrelated.example", "ed25519:u")
+	// events of OTHER room versions for mixed batches (ninth seeding round, C05-S): of types whose redacted form differs
+	// from version to version, each validly signed by a server of its own
+	partner := gen.NewIdentity(kr, "partner.example", "ed25519:p")
+	partners := map[gmsl.RoomVersion][]gmsl.PDU{}
+	partnerVersions := []gmsl.RoomVersion{}
+	for _, pv := range sortedVersions() {
+		pt := ref.Traits(string(pv))
+		if pt == nil || pv == gmsl.RoomVersionPseudoIDs {
+			continue
+		}
+		psender := "@p:partner.example"
+		for _, k := range []struct{ typ, content string }{
+			{"m.room.power_levels", `{"users":{"@p:partner.example":100},"invite":50,"ban":50}`},
+			{"m.room.join_rules", `{"join_rule":"restricted","allow":[{"type":"m.room_membership","room_id":"!other:partner.example"}]}`},
+			{"m.room.aliases", `{"aliases":["#a:partner.example"]}`},
+			{"m.room.member", `{"membership":"leave","join_authorised_via_users_server":"@q:partner.example","third_party_invite":{"signed":{"mxid":"@p:partner.example","token":"t","signatures":{}}}}`},
+		} {
+			sk := ""
+			if k.typ == "m.room.aliases" {
+				sk = "partner.example"
+			} else if k.typ == "m.room.member" {
+				sk = psender
+			}
+			ps := protoSpec{Type: k.typ, StateKey: strp(sk), Sender: psender, RoomID: "!room:partner.example", Content: []byte(k.content), Depth: 7,
+				Prev: []string{"$prev:partner.example"}, Auth: []string{"$create:partner.example"}}
+			if pt.Domainless {
+				ps.RoomID = "!" + strings.Repeat("P", 43)
+			}
+			if pt.EventIDFormat >= 2 {
+				ps.Prev, ps.Auth = []string{"$" + strings.Repeat("B", 43)}, []string{"$" + strings.Repeat("C", 43)}
+			}
+			pe, err := buildEvent(pv, ps, partner, baseTime)
+			if err != nil {
+				continue
+			}
+			partners[pv] = append(partners[pv], pe)
+		}
+		if len(partners[pv]) > 0 {
+			partnerVersions = append(partnerVersions, pv)
+		}
+	}
 	if c.Shard == 0 {
 		c06NoAuthoriserNamed(c, ids)
 		c06SmuggledAuthoriser(c, ids)
@@ -266,6 +307,7 @@ func runC06(c *mon.Ctx) {
 						db.set(s, "ed25519:main", ids[s].Pub, farFuture, 0)
 						db.set(s, "ed25519:aux", second[s].Pub, farFuture, 0)
 					}
+					db.set(partner.Server, partner.KeyID, partner.Pub, farFuture, 0)
 					for _, s := range reqList {
 						switch states[s] {
 						case sGood:
@@ -457,6 +499,76 @@ func runC06(c *mon.Ctx) {
 							}
 						}
 					}
+					if ver != gmsl.RoomVersionPseudoIDs {
+						// the redacted form of the event: the signatures are made over it, so it verifies exactly when the event
+						// does - provided the redaction of this version keeps what names the required servers (it always keeps
+						// sender, event ID, membership and state key; join_authorised_via_users_server only from version 9 on)
+						keep, _ := ref.ContentKeep(t.Redaction, kind.typ)
+						keepsAuthoriser := false
+						for _, k := range keep {
+							if k == "join_authorised_via_users_server" {
+								keepsAuthoriser = true
+							}
+						}
+						if !(kind.authorised && t.Restricted) || keepsAuthoriser {
+							if fresh, err := impl.NewEventFromTrustedJSON(final.JSON(), false); err == nil {
+								var rerr error
+								site, msg, pan := mon.Guard(func() {
+									fresh.Redact()
+									rerr = gmsl.VerifyEventSignatures(context.Background(), fresh, &gmsl.KeyRing{KeyDatabase: db}, userIDForSender)
+								})
+								c.Count("verifications_of_the_redacted_form")
+								if pan {
+									c.Failf("verify:panic:"+site, "VerifyEventSignatures on the redacted form panics: %s", msg)
+								} else if (rerr == nil) != (verr == nil) {
+									dir := "rejects-valid"
+									if rerr == nil {
+										dir = "accepts-invalid"
+									}
+									c.Failf("verify:"+dir+":redacted-form:"+faultClass(states, reqList), "v%s %s with states %v: the event gets %v, its redacted form gets %v\n%s", ver, kind.name, stateDesc(states), verr, rerr, fresh.JSON())
+								}
+							}
+						}
+						// a batch of events of different room versions: every event is judged by its own version
+						if len(partnerVersions) > 1 {
+							pv := partnerVersions[caseNo%len(partnerVersions)]
+							if pv == ver {
+								pv = partnerVersions[(caseNo+1)%len(partnerVersions)]
+							}
+							pe := partners[pv][(caseNo/len(partnerVersions))%len(partners[pv])]
+							for _, order := range [][]gmsl.PDU{{pe, final}, {final, pe}} {
+								var errs []error
+								site, msg, pan := mon.Guard(func() {
+									errs = gmsl.VerifyAllEventSignatures(context.Background(), order, &gmsl.KeyRing{KeyDatabase: db}, userIDForSender)
+								})
+								c.Count("mixed_version_batch_verifications")
+								if pan {
+									c.Failf("verify:panic:"+site, "VerifyAllEventSignatures panics on a batch of two room versions: %s", msg)
+									break
+								}
+								if len(errs) != len(order) {
+									c.Failf("verify:batch:result-count", "VerifyAllEventSignatures returns %d results for %d events", len(errs), len(order))
+									break
+								}
+								bad := false
+								for i, q := range order {
+									wantOK := q == pe || verr == nil
+									if (errs[i] == nil) != wantOK {
+										dir := "rejects-valid"
+										if errs[i] == nil {
+											dir = "accepts-invalid"
+										}
+										c.Failf("verify:batch:"+dir+":events-of-two-room-versions", "a batch of a v%s %s and a v%s %s: entry %d gets %v, on its own it gets ok=%v", order[0].Version(), order[0].Type(), order[1].Version(), order[1].Type(), i, errs[i], wantOK)
+										bad = true
+										break
+									}
+								}
+								if bad {
+									break
+								}
+							}
+						}
+					}
 					if c.WantSample() && faulty {
 						c.Sample(desc)
 					}
@@ -466,6 +578,8 @@ func runC06(c *mon.Ctx) {
 	}
 	c.Floor("expected_accept", 50)
 	c.Floor("expected_reject", 50)
+	c.Floor("verifications_of_the_redacted_form", 50)
+	c.Floor("mixed_version_batch_verifications", 50)
 }
 
 func uniq(xs []string) []string {
